@@ -112,6 +112,12 @@ func newUniverse(P *Program) *Universe {
 	for _, si := range U.structs {
 		U.fillFields(si)
 	}
+	for _, n := range []string{"Span", "Token"} {
+		if o := pp.Scope().Lookup(n); o != nil {
+			U.structInfo(o.Type().(*types.Named))
+		}
+	}
+	U.seqs["Seq_Token"] = "Token"
 	U.seqs["Str"] = "Int"
 	U.seqs["Seq_Err"] = "Err"
 	U.seqs["Seq_Node"] = "Node"
@@ -416,6 +422,9 @@ func (U *Universe) prelude() string {
 	for _, s := range []string{"Any", "Fn"} {
 		fmt.Fprintf(&b, "(declare-sort %s 0)\n(declare-const %s.nil %s)\n", s, s, s)
 	}
+	b.WriteString("; ---- Out: content of a strings.Builder, newest fragment outermost\n")
+	b.WriteString("(declare-datatypes ((Out 0)) (((OEmpty) (OByte (OByte.prev Out) (OByte.b Int)) (OStr (OStr.prev Out) (OStr.s Str)) (ORune (ORune.prev Out) (ORune.r Int)))))\n")
+	b.WriteString("(declare-fun Out.str (Out) Str)\n")
 	// records in dependency order
 	b.WriteString("; ---- records\n")
 	done := map[string]bool{}
@@ -468,9 +477,6 @@ func (U *Universe) prelude() string {
 		b.WriteString(")\n")
 	}
 	b.WriteString(")))\n")
-	b.WriteString("; ---- Out: content of a strings.Builder, newest fragment outermost\n")
-	b.WriteString("(declare-datatypes ((Out 0)) (((OEmpty) (OByte (OByte.prev Out) (OByte.b Int)) (OStr (OStr.prev Out) (OStr.s Str)) (ORune (ORune.prev Out) (ORune.r Int)))))\n")
-	b.WriteString("(declare-fun Out.str (Out) Str)\n")
 	b.WriteString("; ---- sequences\n")
 	for _, s := range seqNames {
 		e := U.seqs[s]
